@@ -13,6 +13,7 @@ fn corpus(rng: &mut Rng, n: u64) -> Vec<Vec<u8>> {
         b"*2\r\n$3\r\nGET\r\n$1\r\nk\r\n", b"*3\r\n$3\r\nSET\r\n$1\r\nk\r\n$0\r\n\r\n", b"*3\r\n$3\r\nSET\r\n$1\r\nk\r\n$0\r\n\r\n*2\r\n$3\r\nGET\r\n$1\r\nk\r\n",
         b"*2\r\n*1\r\n:1\r\n*0\r\n", b"*1\r\n$0\r\n\r\n", b"$0\r\n\r\n+OK\r\n",
         b"$-2\r\n", b"*-5\r\n", b"*9223372036854775807\r\n", b"$9223372036854775807\r\n", b"$18446744073709551615\r\n", b"$99999999999999999999\r\n",
+        b"+\r\n", b"-\r\n", b"*1\r\n+\r\n", b"*2\r\n+\r\n-\r\n", b"*1\r\n*1\r\n+\r\n", b"*3\r\n+\r\n:1\r\n-\r\n", b"*1\r\n:\r\n",
         b"$5\r\nab", b":\r\n", b"x", b"", b"\r\n", b"$\r\n", b"*\r\n", b"$3\r\nabcde", b"*2\r\n$1\r\na\r\n", b"$1\r\nab\r\n", b"+\r", b"$2\r\nab\rX",
     ];
     let mut out: Vec<Vec<u8>> = base.iter().map(|b| b.to_vec()).collect();
@@ -53,9 +54,17 @@ pub fn search(_pid: &str, _oid: &str, seed: u64) -> Option<Found> {
             if let Out::Panic(m) = &o { return Some(Found { input: show(p), observed: format!("RespCodec::parse panicked: {}", m), required: "a value, need-more or a protocol error; never a panic".into() }); }
             if !disciplined { return Some(Found { input: show(p), observed: "buffer not advanced by exactly one frame / touched without a frame".into(), required: "Ok(Some) removes exactly the frame, otherwise the buffer is untouched".into() }); }
             let pr = catch_unwind(|| RespParser::parse(p));
-            match pr {
+            match &pr {
                 Err(_) => return Some(Found { input: show(p), observed: "RespParser::parse panicked".into(), required: "never a panic".into() }),
-                Ok(Ok((_, n))) if n == 0 || n > p.len() => return Some(Found { input: show(p), observed: format!("RespParser consumed {} of {}", n, p.len()), required: "0 < n <= len".into() }),
+                Ok(Ok((_, n))) if *n == 0 || *n > p.len() => return Some(Found { input: show(p), observed: format!("RespParser consumed {} of {}", n, p.len()), required: "0 < n <= len".into() }),
+                _ => {}
+            }
+            // the two decoders read the same grammar (unit resp_spec: lemma_decoders_succeed_together / lemma_decoders_agree):
+            // one yields a frame iff the other does, and both consume the same number of bytes
+            match (&o, &pr) {
+                (Out::Frame(f, n), Ok(Ok((_, m)))) if n != m => return Some(Found { input: show(p), observed: format!("RespCodec consumed {} bytes ({}), RespParser {}", n, f, m), required: "both decoders consume the same frame".into() }),
+                (Out::Frame(f, n), Ok(Err(e))) => return Some(Found { input: show(p), observed: format!("RespCodec decoded {} ({} bytes) but RespParser rejected the same bytes: {}", f, n, e), required: "the decoders succeed together".into() }),
+                (Out::NeedMore, Ok(Ok((v, m)))) | (Out::Error, Ok(Ok((v, m)))) => return Some(Found { input: show(p), observed: format!("RespParser decoded {:?} ({} bytes) but RespCodec reported {}", v, m, if matches!(o, Out::NeedMore) { "need-more" } else { "a protocol error" }), required: "the decoders succeed together (a complete frame is never need-more)".into() }),
                 _ => {}
             }
         }
